@@ -1,5 +1,5 @@
 (* Proofs/C07_inst.v -- written by tools/coqgen/gen_c07.py *)
-From ND Require Import Tactics C02_proofs C01_towers C01_faa C08_lift C07_proofs.
+From ND Require Import Tactics C02_proofs C01_towers C01_faa C08_lift C09_proofs C09_faa C07_proofs.
 Local Open Scope R_scope.
 
 Definition fam_DualVec := fun S : @block nat => S = nil \/ exists i, S = i :: nil.
@@ -82,6 +82,10 @@ Lemma cong_DualVec_acosh : forall x x' : DualVec R, (fun r : R => 1 < r) (DualVe
 Proof. intros x x' ; apply (cong_unary JA_DualVec (fun x : DualVec R => m_acosh x) (tw3 m_acosh) (fun r : R => 1 < r)); auto; intros y Wy Dy S F; destruct (fam_DualVec_cover S F) as [i HS]; exact (faa_DualVec_acosh i y Dy  S HS). Qed.
 Lemma cong_DualVec_atanh : forall x x' : DualVec R, (fun r : R => -1 < r < 1) (DualVec_f_re x) -> veq_DualVec x x' -> veq_DualVec (m_atanh x) (m_atanh x').
 Proof. intros x x' ; apply (cong_unary JA_DualVec (fun x : DualVec R => m_atanh x) (tw3 m_atanh) (fun r : R => -1 < r < 1)); auto; intros y Wy Dy S F; destruct (fam_DualVec_cover S F) as [i HS]; exact (faa_DualVec_atanh i y Dy  S HS). Qed.
+Lemma cong_DualVec_powi : forall (n : Z) (x x' : DualVec R), veq_DualVec x x' -> veq_DualVec (m_powi x n) (m_powi x' n).
+Proof. intros n x x' ; apply (cong_unary JA_DualVec (fun x : DualVec R => m_powi x n) (tw3 (fun d => m_powi d n)) (fun _ : R => True)); auto; intros y Wy Dy S F; destruct (fam_DualVec_cover S F) as [i HS]; exact (faa_DualVec_powi i n y S HS). Qed.
+Lemma cong_DualVec_powf : forall (n : R) (x x' : DualVec R), veq_DualVec x x' -> veq_DualVec (m_powf x n) (m_powf x' n).
+Proof. intros n x x' ; apply (cong_unary JA_DualVec (fun x : DualVec R => m_powf x n) (tw3 (fun d => m_powf d n)) (fun _ : R => True)); auto; intros y Wy Dy S F; destruct (fam_DualVec_cover S F) as [i HS]; exact (faa_DualVec_powf i n y S HS). Qed.
 
 Definition fam_Dual2Vec := fun S : @block nat => S = nil \/ (exists i, S = i :: nil) \/ exists i j, S = i :: j :: nil.
 Lemma fam_Dual2Vec_cover : forall S, fam_Dual2Vec S -> exists i j, In S (idx_Dual2Vec i j).
@@ -167,6 +171,10 @@ Lemma cong_Dual2Vec_acosh : forall x x' : Dual2Vec R, wf_Dual2Vec x -> wf_Dual2V
 Proof. intros x x' Wx Wx2; apply (cong_unary JA_Dual2Vec (fun x : Dual2Vec R => m_acosh x) (tw3 m_acosh) (fun r : R => 1 < r)); auto; intros y Wy Dy S F; destruct (fam_Dual2Vec_cover S F) as [i [j HS]]; exact (faa_Dual2Vec_acosh i j y Dy Wy S HS). Qed.
 Lemma cong_Dual2Vec_atanh : forall x x' : Dual2Vec R, wf_Dual2Vec x -> wf_Dual2Vec x' -> (fun r : R => -1 < r < 1) (Dual2Vec_f_re x) -> veq_Dual2Vec x x' -> veq_Dual2Vec (m_atanh x) (m_atanh x').
 Proof. intros x x' Wx Wx2; apply (cong_unary JA_Dual2Vec (fun x : Dual2Vec R => m_atanh x) (tw3 m_atanh) (fun r : R => -1 < r < 1)); auto; intros y Wy Dy S F; destruct (fam_Dual2Vec_cover S F) as [i [j HS]]; exact (faa_Dual2Vec_atanh i j y Dy Wy S HS). Qed.
+Lemma cong_Dual2Vec_powi : forall (n : Z) (x x' : Dual2Vec R), wf_Dual2Vec x -> wf_Dual2Vec x' -> veq_Dual2Vec x x' -> veq_Dual2Vec (m_powi x n) (m_powi x' n).
+Proof. intros n x x' Wx Wx2; apply (cong_unary JA_Dual2Vec (fun x : Dual2Vec R => m_powi x n) (tw3 (fun d => m_powi d n)) (fun _ : R => True)); auto; intros y Wy Dy S F; destruct (fam_Dual2Vec_cover S F) as [i [j HS]]; exact (faa_Dual2Vec_powi i j n y Wy S HS). Qed.
+Lemma cong_Dual2Vec_powf : forall (n : R) (x x' : Dual2Vec R), wf_Dual2Vec x -> wf_Dual2Vec x' -> veq_Dual2Vec x x' -> veq_Dual2Vec (m_powf x n) (m_powf x' n).
+Proof. intros n x x' Wx Wx2; apply (cong_unary JA_Dual2Vec (fun x : Dual2Vec R => m_powf x n) (tw3 (fun d => m_powf d n)) (fun _ : R => True)); auto; intros y Wy Dy S F; destruct (fam_Dual2Vec_cover S F) as [i [j HS]]; exact (faa_Dual2Vec_powf i j n y Wy S HS). Qed.
 
 Definition fam_HyperDualVec := fun S : @block (nat + nat) => S = nil \/ (exists i, S = inl i :: nil) \/ (exists j, S = inr j :: nil) \/ exists i j, S = inl i :: inr j :: nil.
 Lemma fam_HyperDualVec_cover : forall S, fam_HyperDualVec S -> exists i j, In S (idx_HyperDualVec i j).
@@ -252,4 +260,8 @@ Lemma cong_HyperDualVec_acosh : forall x x' : HyperDualVec R, wf_HyperDualVec x 
 Proof. intros x x' Wx Wx2; apply (cong_unary JA_HyperDualVec (fun x : HyperDualVec R => m_acosh x) (tw3 m_acosh) (fun r : R => 1 < r)); auto; intros y Wy Dy S F; destruct (fam_HyperDualVec_cover S F) as [i [j HS]]; exact (faa_HyperDualVec_acosh i j y Dy Wy S HS). Qed.
 Lemma cong_HyperDualVec_atanh : forall x x' : HyperDualVec R, wf_HyperDualVec x -> wf_HyperDualVec x' -> (fun r : R => -1 < r < 1) (HyperDualVec_f_re x) -> veq_HyperDualVec x x' -> veq_HyperDualVec (m_atanh x) (m_atanh x').
 Proof. intros x x' Wx Wx2; apply (cong_unary JA_HyperDualVec (fun x : HyperDualVec R => m_atanh x) (tw3 m_atanh) (fun r : R => -1 < r < 1)); auto; intros y Wy Dy S F; destruct (fam_HyperDualVec_cover S F) as [i [j HS]]; exact (faa_HyperDualVec_atanh i j y Dy Wy S HS). Qed.
+Lemma cong_HyperDualVec_powi : forall (n : Z) (x x' : HyperDualVec R), wf_HyperDualVec x -> wf_HyperDualVec x' -> veq_HyperDualVec x x' -> veq_HyperDualVec (m_powi x n) (m_powi x' n).
+Proof. intros n x x' Wx Wx2; apply (cong_unary JA_HyperDualVec (fun x : HyperDualVec R => m_powi x n) (tw3 (fun d => m_powi d n)) (fun _ : R => True)); auto; intros y Wy Dy S F; destruct (fam_HyperDualVec_cover S F) as [i [j HS]]; exact (faa_HyperDualVec_powi i j n y Wy S HS). Qed.
+Lemma cong_HyperDualVec_powf : forall (n : R) (x x' : HyperDualVec R), wf_HyperDualVec x -> wf_HyperDualVec x' -> veq_HyperDualVec x x' -> veq_HyperDualVec (m_powf x n) (m_powf x' n).
+Proof. intros n x x' Wx Wx2; apply (cong_unary JA_HyperDualVec (fun x : HyperDualVec R => m_powf x n) (tw3 (fun d => m_powf d n)) (fun _ : R => True)); auto; intros y Wy Dy S F; destruct (fam_HyperDualVec_cover S F) as [i [j HS]]; exact (faa_HyperDualVec_powf i j n y Wy S HS). Qed.
 
